@@ -3,7 +3,7 @@
    there correspond BOTH configurations with one Gallina model whose theorems are in that property's file.
    Here: the twin constants agree and the classification is total.  Statements only. *)
 From Coq Require Import List ZArith QArith Bool String.
-From BZ Require Import Base.PyVal Gen.F90Const Gen.PyShims Gen.PyCurveHelpers Gen.PyFnHelpers Theory.Twins.
+From BZ Require Import Base.PyVal Gen.F90Const Gen.PyShims Gen.PyCurveHelpers Gen.PyFnHelpers Gen.StatusMap Theory.Twins.
 Import ListNotations.
 
 Theorem C07_twin_constants_equal : forallb (fun t => Qeq_bool (snd (fst t)) (snd t)) twin_constants = true.
@@ -23,3 +23,25 @@ Theorem C07_every_shim_is_classified :
   forallb (fun b => existsb (String.eqb (binding_name b)) (map fst shim_classes)) shim_bindings = true.
 Proof. exact shim_enumeration. Qed.
 Print Assumptions C07_every_shim_is_classified.
+
+(* status codes -> exceptions: one enum in C header, Cython declaration and Fortran; the compiled C implements the Cython chain;
+   every exception of a status has a pure-Python twin with the same class and message; the chains are well formed *)
+Theorem C07_status_enum_agrees_in_three_languages :
+  enum_eqb status_enum_h status_enum_pxd && enum_eqb status_enum_h status_enum_f90 = true.
+Proof. exact status_enum_agrees_in_three_languages. Qed.
+Print Assumptions C07_status_enum_agrees_in_three_languages.
+Theorem C07_compiled_status_map_is_the_cython_one : rows_eqb status_map_c status_map_pyx = true.
+Proof. exact compiled_status_map_is_the_cython_one. Qed.
+Print Assumptions C07_compiled_status_map_is_the_cython_one.
+Theorem C07_status_exceptions_have_python_twins :
+  forallb (fun row => let '(_, st, _, raises) := row in compiled_only_status st || forallb has_python_twin raises) status_map_c = true.
+Proof. exact status_exceptions_have_python_twins. Qed.
+Print Assumptions C07_status_exceptions_have_python_twins.
+Theorem C07_status_chains_well_formed :
+  forallb (fun row => let '(_, st, _, _) := row in String.eqb st "default" || existsb (fun e => String.eqb (fst e) st) status_enum_h) status_map_c
+  && forallb (fun f => existsb (fun row => let '(g, st, ret, raises) := row in
+                                String.eqb f g && String.eqb st "SUCCESS" && ret && match raises with [] => true | _ => false end) status_map_c
+                   && existsb (fun row => let '(g, st, _, _) := row in String.eqb f g && String.eqb st "default") status_map_c)
+             ["curve_intersections"; "triangle_intersections"] = true.
+Proof. exact status_chains_well_formed. Qed.
+Print Assumptions C07_status_chains_well_formed.
